@@ -1,34 +1,37 @@
 """C10 — translator entries for translate / rotate / scale / transform
 (svgpathtools/path.py 199-352).
 
-All four functions dispatch on isinstance (static when the argument is declared
-as an ('obj', Class, ...)) and END in a constructor call
-(bpoints2bezier([...]) -> Line(*bpoints) / QuadraticBezier / CubicBezier, or
-Arc(...)), which is outside the translator's subset (no value for class
-instances is ever built by py2v).  They are listed so that every run records
-why the translator tie is unavailable; the hand model Model/Xform.v and the
-correspondence check (tools/harness/c10.py) carry them.
+The four functions dispatch on isinstance (static when the argument is declared
+as an ('obj', Class, ...)) and end in a constructor call, which py2v renders as
+the list of control points (Bezier classes, return type LC) or as the tuple of
+constructor arguments (Arc, return type T.ARC).  Every variant of the optional
+arguments is a separate entry, so that each statically selected branch of the
+source is re-checked on every run against Model/Xform.v (GenAgree/Xform.v):
+  * translate on Line / Quadratic / Cubic / Arc;
+  * rotate with an explicit origin and with origin=None (default: point(0.5),
+    Arc: center), exp(1j*radians(degs)) = (cos_ T, sin_ T);
+  * scale with sy given and with sy=None (Bezier: the whole bez2poly -> _scale ->
+    correction -> poly2bez route; Arc: the sy == sx test and the refusal raise);
+  * bez2poly on the three Bezier classes.
+transform() is numpy matrix code (np.eye, np.array, tf.dot): outside the subset,
+listed so that every run records it; Model/Xform.v + correspondence carry it."""
 
-What IS inside the subset and is tied by proof (GenAgree/Xform.v):
-  * bez2poly(bez) for the three Bezier classes (first statement of
-    scale_bezier),
-  * polynomial2bezier / poly2bez(p, return_bpoints=True) (last statement of
-    scale_bezier, before the constructor) — already in GenBezierN
-    (gen_polynomial2bezier_2/3/4, agreement in GenAgree/BezierN.v),
-so that the two conversion ends of scale_bezier are re-checked against the
-source on every run; the middle (_scale on each coefficient, constant-term
-correction) and the point maps of translate / rotate / transform are three
-lines each and are covered by the exact-rational correspondence."""
 import py2v_table as T
 
 
 def register(group):
     g = group('GenXform')
+    NONE = ('static', None)
     for nm, ty in (('Line', T.LINE), ('Quad', T.QUAD), ('Cubic', T.CUBIC)):
         g.append(('gen_bez2poly_%s' % nm, 'bez2poly', [('bez', ty)], T.LC))
         g.append(('gen_translate_%s' % nm, 'translate', [('curve', ty), ('z0', 'C')], T.LC))
         g.append(('gen_rotate_%s' % nm, 'rotate', [('curve', ty), ('degs', 'R'), ('origin', 'C')], T.LC))
+        g.append(('gen_rotate_%s_default' % nm, 'rotate', [('curve', ty), ('degs', 'R'), ('origin', NONE)], T.LC))
         g.append(('gen_scale_%s' % nm, 'scale', [('curve', ty), ('sx', 'R'), ('sy', 'R'), ('origin', 'C')], T.LC))
+        g.append(('gen_scale_%s_uniform' % nm, 'scale', [('curve', ty), ('sx', 'R'), ('sy', NONE), ('origin', 'C')], T.LC))
     g.append(('gen_translate_Arc', 'translate', [('curve', T.ARC), ('z0', 'C')], T.ARC))
-    g.append(('gen_scale_Arc', 'scale', [('curve', T.ARC), ('sx', 'R'), ('sy', ('static', None)), ('origin', 'C')], T.ARC))
+    g.append(('gen_rotate_Arc', 'rotate', [('curve', T.ARC), ('degs', 'R'), ('origin', 'C')], T.ARC))
+    g.append(('gen_rotate_Arc_default', 'rotate', [('curve', T.ARC), ('degs', 'R'), ('origin', NONE)], T.ARC))
+    g.append(('gen_scale_Arc', 'scale', [('curve', T.ARC), ('sx', 'R'), ('sy', NONE), ('origin', 'C')], T.ARC))
+    g.append(('gen_scale_Arc_sy', 'scale', [('curve', T.ARC), ('sx', 'R'), ('sy', 'R'), ('origin', 'C')], T.ARC))
     g.append(('gen_transform_Line', 'transform', [('curve', T.LINE), ('tf', ('tuple', 'R', 9))], T.LC))
